@@ -67,7 +67,7 @@ SYMS = [
         doc="image_view::operator()(x,y): 1 iff its BOOST_ASSERTs pass"),
     # does nth_channel_view / kth_channel_view take the channel's address through image_view::operator() (which asserts a
     # non-empty view) or through the locator?  1 = through the view
-    Sym(F, r"x_iterator_base_t\(&\((src(?:\.pixels\(\))?)\(0,0\)\[n\]\)\)", "nth_channel_through_view", [], ret="int", expr=True,
+    Sym(F, r"x_iterator_base_t\(\s*&\s*\(\s*(src(?:\.pixels\(\))?)\(\s*0\s*,\s*0\s*\)\s*\[[^\]]*\]\s*\)\s*\)", "nth_channel_through_view", [], ret="int", expr=True,
         subst=[(r"src\.pixels\(\)", "0"), (r"src", "1")],
         doc="nth_channel_view: 1 iff the address of channel n is taken through image_view::operator()(0,0)"),
 ]
@@ -95,8 +95,8 @@ COUT = ["ox", "oy", "ch", "xstep", "ystep", "dw", "dh"]
 CPARAMS = [("n", "int"), ("K", "int"), ("pixel_size", PD), ("row_size", PD), ("chan_size", PD), ("w", PD), ("h", PD)] + [(o, PD) for o in COUT]
 CSRC = [(r"src\.pixels\(\)\.pixel_size\(\)", "pixel_size"), (r"src\.pixels\(\)\.row_size\(\)", "row_size")] + SRC
 PIX00 = r"src(?:\.pixels\(\))?\((" + BAL + r"),(" + BAL + r")\)"
-NTH_ADDR = r"&\(" + PIX00 + r"\[(" + BAL + r")\]\)"                    # &(src.pixels()(0,0)[n])
-KTH_ADDR = r"&gil::at_c<(\w+)>\(" + PIX00 + r"\)"                       # &gil::at_c<K>(src.pixels()(0,0))
+NTH_ADDR = r"&\s*\(\s*" + PIX00 + r"\s*\[\s*(" + BAL + r")\s*\]\s*\)"                    # &(src.pixels()(0,0)[n])
+KTH_ADDR = r"&\s*gil::at_c<\s*(\w+)\s*>\(\s*" + PIX00 + r"\s*\)"                       # &gil::at_c<K>(src.pixels()(0,0))
 def chan_make(kth, adjacent):
     name = "__kth_channel_view_basic<K,View,%s>" % ("true" if adjacent else "false") if kth else "__nth_channel_view_basic<View,%s>" % ("true" if adjacent else "false")
     sig = r"static type make\(View const& src\)" if kth else r"static type make\(View const& src, int n\)"
@@ -104,11 +104,11 @@ def chan_make(kth, adjacent):
     grp = (r"\2", r"\3", r"\1") if kth else (r"\1", r"\2", r"\3")           # ox, oy, ch
     if adjacent:
         # interleaved_view(w, h, (gray pixel pointer)&channel, row bytes): the x step is the size of the pointee, one channel
-        sub = [(r"return interleaved_view\((" + BAL + r"),(" + BAL + r"),\(x_iterator_t\)" + addr + r",\s*(" + BAL2 + r")\);",
+        sub = [(r"return interleaved_view\(\s*(" + BAL + r"),(" + BAL + r"),\s*\(x_iterator_t\)\s*" + addr + r"\s*,\s*(" + BAL2 + r")\);",
                 "dw = \\1; dh = \\2; ox = \\%d; oy = \\%d; ch = \\%d; xstep = chan_size; ystep = \\6;" % tuple(int(g[1]) + 2 for g in grp))]
     else:
-        sub = [(r"x_iterator_t sit\(x_iterator_base_t\(" + addr + r"\),(" + BAL2 + r")\);", "ox = %s; oy = %s; ch = %s; xstep = \\4;" % grp),
-               (r"return type\(src\.dimensions\(\),locator_t\(sit, (" + BAL2 + r")\)\);", r"dw = w; dh = h; ystep = \1;")]
+        sub = [(r"x_iterator_t\s+sit\(\s*x_iterator_base_t\(\s*" + addr + r"\s*\)\s*,(" + BAL2 + r")\);", "ox = %s; oy = %s; ch = %s; xstep = \\4;" % grp),
+               (r"return type\(\s*src\.dimensions\(\)\s*,\s*locator_t\(\s*sit\s*,\s*(" + BAL2 + r")\)\s*\);", r"dw = w; dh = h; ystep = \1;")]
     return Sym(F, r"struct " + re.escape(name) + r" \{.*?" + sig, "%s_channel_%s" % ("kth" if kth else "nth", "adjacent" if adjacent else "stepped"),
                CPARAMS, outputs=COUT, subst=[(r"using [^;]*;", "")] + sub + CSRC,
                doc="%s::make: pixel and channel whose address becomes the new origin, steps and dimensions of the channel view" % name)
